@@ -92,6 +92,8 @@ def run(ck):
 
     # ---- clause 3: at most once ---------------------------------------------------------------------------
     wr = [b for b in f.closures_of(ii)]
+    # .. or the same take-then-call written in the IdleDispatcher impl of a private wrapper type (whatever its name)
+    wr += [b for b in f.bodies.values() if (b.impl_trait or "").endswith("IdleDispatcher") and b.name == "dispatch" and any(cs.name == "call_once" for cs in T.calls(b, name=("call_once",), self_kind=("param",)))]
     n3 = 0
     for w in wr:
         for cs in T.calls(w, name=("call_once", "call_mut", "call"), self_kind=("param",)):
@@ -121,12 +123,13 @@ def run(ck):
     ic = ck.body("5", "Idle::cancel")
     cc = T.calls(ic, name="cancel")
     ck.verdict(bool(cc) and all(T.path_has(ic, c.args[0], ".callback") for c in cc) and T.t2_all_exits(ic, [0], [c.bb for c in cc]) is None, "5", "T6-provenance", ic, "cancel-reaches-shared-slot", "Idle::cancel always calls cancel on the shared callback cell", "Idle::cancel does not reach the shared callback", site=ic.where())
-    oc = ck.opt_body("<Option as CancellableIdle>::cancel")
-    if oc is None:
+    # the implementation(s) of CancellableIdle::cancel, for whichever private type holds the callback
+    ocs = [b for b in f.bodies.values() if (b.impl_trait or "").endswith("CancellableIdle") and b.name == "cancel"]
+    if not ocs:
         ck.anchor_missing("5", "T6-provenance", "<Option as CancellableIdle>::cancel")
-    else:
+    for oc in ocs:
         tk = T.calls(oc, name=("take", "replace"))
-        st_none = [i for i, j, st in oc.statements() if st["s"] == "assign" and st["pl"]["l"] == 1 and st["pl"]["p"] == ["*"]]
+        st_none = [i for i, j, st in oc.statements() if st["s"] == "assign" and st["pl"]["l"] == 1 and st["pl"]["p"] and st["pl"]["p"][0] == "*" and st["rv"]["r"] == "use" and any(v[1] == "None" for v in T.agg_variant(oc, st["rv"]["o"]))]
         ok = (bool(tk) and all(T.resolves_to_arg(oc, c.args[0], 1) for c in tk) and T.t2_all_exits(oc, [0], [c.bb for c in tk]) is None) or bool(st_none)
         ck.verdict(ok, "5", "T6-provenance", oc, "cancel-empties-slot", "cancel takes the callback out of the slot", "cancel leaves the callback in the slot: a cancelled idle still runs", site=oc.where())
     idle = f.adts.get("sources::Idle")
